@@ -646,7 +646,11 @@ def main(ctx):
         m, s = r[0], r[1]
         e = r[2] if get_err else None
         ind = r[-1] if get_ind else extra.get("indices")
-        levels = clip_levels(tuple(data), None if w is None else tuple(w), nsig)
+        try:
+            levels = clip_levels(tuple(data), None if w is None else tuple(w), nsig)
+        except ZeroDivisionError:
+            # some reachable subset has total weight zero: its weighted mean is undefined, the case is not constrained
+            return rec.ok(case, outcome="subset-of-zero-total-weight:unconstrained", nontrivial=False, calls=1)
         states = levels[min(niter, len(levels) - 1)]
         if ind is None:
             # no subset reported at all: the statistics must be those of an acceptable subset
@@ -692,6 +696,11 @@ def main(ctx):
         if n > 1:
             out.append(tuple(0.5 + 1.5 * i / (n - 1) for i in range(n)))
             out.append(tuple(1.0 + (i % 2) for i in range(n)))
+            # exact zeros: a zero-weight point inside the band is a surviving point like any other (it is reported
+            # among the indices, it does not move the mean)
+            out.append(tuple(0.0 if i == 1 else 1.0 for i in range(n)))
+        if n > 2:
+            out.append(tuple(float(i % 2) for i in range(n)))
         return out
 
     unitsc = []
